@@ -4,7 +4,7 @@ import sys
 sys.path.insert(0, '/verif')
 from uecheck.facts import Facts
 from uecheck.sym import walk, short
-F = Facts('/verif/.work/facts')
+import os; F = Facts(os.environ.get('FACTS','/verif/.work/facts'))
 for f in F.find_fns(sys.argv[1]):
     print("==", f.id, f.at())
     ps = walk(f, F)
